@@ -1,6 +1,103 @@
-/- stub: property C17 has no model driver yet -/
-namespace ActixModel.Drv.C17
+import ActixModel.Util
+import ActixModel.Model.ClientDecode
+import ActixModel.Model.Client
+import ActixModel.Model.Pool
+import ActixModel.Model.ClientWorld
+/-
+Line-protocol driver for C17 (grammar: see `harness/src/props/c17.rs`).
 
-def run (_line : String) : String := "unimplemented"
+One case = a request program against scripted servers. The driver plays the environment the
+harness builds around the real client: one logical clock tick per operation (per wave inside a
+concurrent batch), servers that write exactly the script's segments, leftover bytes (`/`) that
+reach the socket only after the client is done with the exchange, `.c` = FIN after the last byte.
+-/
+namespace ActixModel.Drv.C17
+open ActixModel.Util ActixModel.ClientDecode ActixModel.Client ActixModel.Pool ActixModel.ClientWorld
+
+def parseSegs (s : String) : Option (List Bytes) :=
+  if s == "-" || s == "" then some []
+  else (s.splitOn "|").mapM bytesOfHex
+
+def parseScript (s : String) : Option Script :=
+  match s.splitOn "." with
+  | [body, flag] =>
+    let close? : Option Bool := if flag == "c" then some true else if flag == "k" then some false else none
+    match close? with
+    | none => none
+    | some close =>
+      match body.splitOn "/" with
+      | [p] => (parseSegs p).map fun pre => ⟨pre, [], close⟩
+      | [p, q] =>
+        match parseSegs p, parseSegs q with
+        | some pre, some post => some ⟨pre, post, close⟩
+        | _, _ => none
+      | _ => none
+  | _ => none
+
+def parseAuth (c : Char) : Option Nat :=
+  if c == 'a' then some 0 else if c == 'b' then some 1 else none
+
+def parseOp (tok : String) : Op :=
+  match tok.splitOn ":" with
+  | ["r", a, m, mode, script] =>
+    let auth? := match a.toList with
+      | [c] => parseAuth c
+      | _ => none
+    let opts? : Option ReqOpts :=
+      if m == "g" then some ⟨false, false⟩ else if m == "h" then some ⟨true, false⟩
+      else if m == "c" then some ⟨false, true⟩ else none
+    let mode? : Option Mode :=
+      if mode == "f" then some .full
+      else if mode.startsWith "p" then ((mode.drop 1).toString.toNat?).map Mode.part
+      else none
+    match auth?, opts?, mode?, parseScript script with
+    | some auth, some o, some md, some s => .req auth o md s
+    | _, _, _, _ => .bad
+  | ["par", auths] =>
+    let cs := auths.toList
+    if cs.isEmpty || cs.length > 12 then .bad
+    else match cs.mapM parseAuth with
+      | some v => .par v
+      | none => .bad
+  | _ => .bad
+
+structure Case where
+  limit : Nat := 2
+  ka0 : Bool := false
+  life0 : Bool := false
+  ops : List Op := []
+
+def parseCase (line : String) : Case :=
+  (words line).foldl (fun c tok =>
+    if tok.startsWith "lim=" then
+      match (tok.drop 4).toString.toNat? with
+      | some n => if n ≤ 64 then { c with limit := n } else { c with ops := c.ops ++ [.bad] }
+      | none => { c with ops := c.ops ++ [.bad] }
+    else if tok == "ka=0" then { c with ka0 := true }
+    else if tok == "life=0" then { c with life0 := true }
+    else { c with ops := c.ops ++ [parseOp tok] }) {}
+
+def showHex (bs : Bytes) : String := if bs.isEmpty then "-" else hexOfBytes bs
+
+def showOutcome : Outcome → String
+  | .body s b => "S" ++ toString s ++ ",B" ++ showHex b
+  | .bodyErr s e => "S" ++ toString s ++ ",E" ++ (match e with
+      | .incomplete => "inc" | .io => "io" | .timeout => "timeout")
+  | .dropped s => "S" ++ toString s ++ ",D"
+  | .sendErr e => "X" ++ (match e with
+      | .disconnected => "disc" | .parseIo => "pio" | .parseHeader => "phdr"
+      | .parseTooLarge => "ptoolarge" | .parseOther => "pother" | .timeout => "timeout")
+
+def showObs : Obs → String
+  | .req reused outcome o => (if reused then "u" else "n") ++ showOutcome outcome ++ ";o=" ++ toString o
+  | .par nNew nReused total o =>
+    "P" ++ toString nNew ++ "," ++ toString nReused ++ "," ++ toString total ++ ";o=" ++ toString o
+  | .bad => "bad-op"
+
+def run (line : String) : String :=
+  let c := parseCase line
+  let cfg : Cfg := ⟨effectiveLimit c.limit, if c.ka0 then 0 else 15000, if c.life0 then 0 else 75000⟩
+  let w := runOps cfg c.ops
+  joinWith " " (w.obs.map showObs ++ ["mo=" ++ toString w.maxOpen ++ ",mi=" ++ toString w.maxInflight])
 
 end ActixModel.Drv.C17
